@@ -420,7 +420,7 @@ Definition step_ok (m : mst) (s : st) (o : op) : Prop :=
   snd (mon m o (snd (step s o))) = [] /\ Inv (fst (mon m o (snd (step s o)))) (fst (step s o)).
 
 Definition plain (o : op) : bool :=
-  match o with Inbound _ _ | AddRespCb _ _ _ _ | AddResultCb _ _ _ | ParArrive _ _ _ _ | SeqArrive _ => false | _ => true end.
+  match o with Inbound _ _ | AddRespCb _ _ _ _ | AddResultCb _ _ _ | ParArrive _ _ _ _ | SeqArrive _ | ParRegister _ _ _ _ _ => false | _ => true end.
 
 Lemma plain_facts s o : plain o = true -> vsame s (fst (step s o)) /\ existsb is_invoke (snd (step s o)) = false.
 Proof.
@@ -703,6 +703,31 @@ Proof.
   rewrite same_rets_refl by apply forallb_rets. reflexivity.
 Qed.
 
+(* ---- the same registration from k goroutines ---- *)
+Lemma mon_regs_sub e f c cb n : forall m s, Inv m s ->
+  snd (mon_regs m e f c cb n) = rets (snd (run_regs s e f c cb n)) /\
+  inv (snd (run_regs s e f c cb n)) = [] /\
+  Inv (fst (mon_regs m e f c cb n)) (fst (run_regs s e f c cb n)).
+Proof.
+  induction n as [|n IH]; intros m s HI; [cbn; (split; [reflexivity|]); (split; [reflexivity|]); exact HI|].
+  cbn [mon_regs run_regs]. destruct (addresp_sub m s e f c cb HI) as [E1 [E2 HI1]].
+  change (step s (AddRespCb e f c cb)) with (add_resp_cb s e f c cb) in E1, E2, HI1.
+  destruct (mon_addresp m e f c cb) as [m1 r1]. destruct (add_resp_cb s e f c cb) as [s1 o1]. cbn [fst snd] in *.
+  destruct (IH m1 s1 HI1) as [F1 [F2 HI2]].
+  destruct (mon_regs m1 e f c cb n) as [m2 r2]. destruct (run_regs s1 e f c cb n) as [s2 o2]. cbn [fst snd] in *.
+  subst. rewrite rets_app, inv_app, E2, F2. (split; [reflexivity|]); (split; [reflexivity|]); exact HI2.
+Qed.
+
+Lemma parreg_ok m s e f c cb k : Inv m s -> step_ok m s (ParRegister e f c cb k).
+Proof.
+  intros HI. unfold step_ok, mon.
+  change (step s (ParRegister e f c cb k)) with (run_regs s e f c cb (N.to_nat k)).
+  destruct (mon_regs_sub e f c cb (N.to_nat k) m s HI) as [E1 [E2 HI1]].
+  destruct (mon_regs m e f c cb (N.to_nat k)) as [m1 r1]. cbn [fst snd] in *. split; [|exact HI1].
+  subst r1. fold (rets (snd (run_regs s e f c cb (N.to_nat k)))). rewrite same_rets_refl by apply forallb_rets.
+  unfold no_invokes. rewrite (inv_nil_no_invokes _ E2). reflexivity.
+Qed.
+
 (* ---- arrivals back to back ---- *)
 Lemma mon_seq_sub l : forall m s, Inv m s ->
   snd (mon_seq m l) = inv (snd (run_seq repaired s l)) /\ Inv (fst (mon_seq m l)) (fst (run_seq repaired s l)).
@@ -742,6 +767,7 @@ Proof.
   - apply inbound_ok; exact HI.
   - apply addresp_ok; exact HI.
   - apply addresult_ok; exact HI.
+  - apply parreg_ok; exact HI.
   - apply seq_ok; exact HI.
   - apply par_ok; exact HI.
 Qed.
@@ -1169,3 +1195,33 @@ Proof.
   - rewrite Hregs. intros cb Hin. destruct late as [cb0|]; [|destruct Hin]. destruct Hin as [<-|[]]. apply Hfresh. reflexivity.
   - exact Hperm.
 Qed.
+
+(* ------------------------------------------------------------------ the same registration from k goroutines *)
+(* all k calls are the same call: every order in which they take their turn is the same sequence; exactly one
+   is accepted unless the callback is pending already, and the state is that of a single registration *)
+Lemma regs_any_order (x : ev) k l : Permutation (repeat x k) l -> l = repeat x k.
+Proof. intros H. apply Permutation_repeat. apply Permutation_sym. exact H. Qed.
+
+Lemma run_regs_refused s e f c cb n :
+  (exists lf, find_lfeat s e (Some f) = Some lf /\
+              memN cb (match assoc_N c (lf_rcb lf) with Some l => l | None => [] end) = true) ->
+  run_regs s e f c cb n = (s, repeat (ORetB false) n).
+Proof.
+  intros [lf [Hf Hm]]. induction n as [|n IH]; [reflexivity|]. cbn [run_regs].
+  unfold add_resp_cb. rewrite Hf, Hm. rewrite IH. reflexivity.
+Qed.
+
+Lemma par_register_outcome s e f c cb n lf :
+  find_lfeat s e (Some f) = Some lf ->
+  run_regs s e f c cb (S n) =
+    (fst (step s (AddRespCb e f c cb)), snd (step s (AddRespCb e f c cb)) ++ repeat (ORetB false) n).
+Proof.
+  intros Hf. cbn [run_regs]. change (add_resp_cb s e f c cb) with (step s (AddRespCb e f c cb)).
+  pose proof (duplicate_refused s e f c cb lf Hf) as Hd. cbn zeta in Hd.
+  destruct (step s (AddRespCb e f c cb)) as [s1 o1] eqn:Hs. cbn [fst snd] in *.
+  assert (Hr : run_regs s1 e f c cb n = (s1, repeat (ORetB false) n)).
+  { induction n as [|n IH]; [reflexivity|]. cbn [run_regs].
+    change (add_resp_cb s1 e f c cb) with (step s1 (AddRespCb e f c cb)). rewrite Hd, IH. reflexivity. }
+  rewrite Hr. reflexivity.
+Qed.
+
